@@ -1226,9 +1226,10 @@ def r12_15(prog: Program, chk: Check) -> None:
     value_classes = set(prog.subclasses("Value"))
     helpers_ok: Dict[str, bool] = {}
 
-    def helper_is_guarded(name: str) -> bool:
+    def helper_is_guarded(name: str) -> Optional[bool]:
+        """None: not a helper that converts its argument to text; otherwise whether the conversion is guarded."""
         if name not in helpers_ok:
-            ok = False
+            ok: Optional[bool] = None
             for mname in prog.modules:
                 try:
                     f = prog.func(mname, name)
@@ -1237,8 +1238,8 @@ def r12_15(prog: Program, chk: Check) -> None:
                 params = {a.arg for a in f.args.args}
                 convs = [c for c in walk_no_nested(f) if isinstance(c, ast.Call) and isinstance(c.func, ast.Name) and c.func.id in ("repr", "str", "format") and c.args and isinstance(c.args[0], ast.Name) and c.args[0].id in params]
                 convs += [c for c in walk_no_nested(f) if isinstance(c, ast.FormattedValue) and isinstance(c.value, ast.Name) and c.value.id in params]
-                ok = bool(convs) and all((lambda t: t is not None and _handler_is_broad(t))(_enclosing_try(c, f)) for c in convs)
-                if ok:
+                if convs:
+                    ok = all((lambda t: t is not None and _handler_is_broad(t))(_enclosing_try(c, f)) for c in convs)
                     break
             helpers_ok[name] = ok
         return helpers_ok[name]
@@ -1257,9 +1258,12 @@ def r12_15(prog: Program, chk: Check) -> None:
             elif isinstance(node, ast.Call) and isinstance(node.func, ast.Name) and node.args and _is_payload(node.args[0], tainted):
                 if node.func.id in ("repr", "str", "format"):
                     conv = node.args[0]
-                elif helper_is_guarded(node.func.id):
+                elif helper_is_guarded(node.func.id) is not None:
                     n += 1
-                    chk.ob("R12.15", f"{ci.module.name}::{cname}.__str__::{node.func.id}({norm(node.args[0])})", True, prog.site(ci.module.name, node), "")
+                    chk.ob(
+                        "R12.15", f"{ci.module.name}::{cname}.__str__::{node.func.id}({norm(node.args[0])})", bool(helper_is_guarded(node.func.id)), prog.site(ci.module.name, node),
+                        f"`{node.func.id}` converts a literal of the checked program to text outside a guard (called from {cname}.__str__): a raising __repr__ turns every diagnostic that mentions the value into an internal_error",
+                    )
                     continue
             if conv is None:
                 continue
